@@ -346,7 +346,7 @@ var concTableOps = []string{"string", "writeto", "find", "byid", "adjust", "buil
 
 func concTask(r *prng.Rand, w drive.CWorld, cat *model.Catalog, typePool []int) drive.CTask {
 	pickType := func() int {
-		if r.Chance(1, 10) {
+		if r.Chance(1, 40) {
 			return 18 // the chain type: values that nest hundreds of levels deep
 		}
 		if r.Bool() {
@@ -686,7 +686,7 @@ func (s concurrent) runScheduled(c *Ctx, cs concCase, pick func(step int, runnab
 	digestFail := ""
 	sched.AtYield = func(step, task int, seam string) {
 		c.Steps++
-		if digestFail == "" && !cs.NoYieldDigest {
+		if digestFail == "" && !cs.NoYieldDigest && (step < 3000 || step%32 == 0) {
 			if q := w.QuickDigest(); q != quick {
 				digestFail = fmt.Sprintf("after step %d (task %d %s at %s): quick digest %q, was %q", step, task, taskClass(cs.Tasks[task]), seam, trunc(q, 300), trunc(quick, 300))
 			}
